@@ -2,6 +2,13 @@ package main
 
 import (
 	"fmt"
+	"go/ast"
+	"go/constant"
+	"go/parser"
+	"go/token"
+	"os"
+	"path/filepath"
+	"sort"
 	"strings"
 )
 
@@ -12,10 +19,308 @@ type limitConst struct{ lean, rel, name string }
 // extraLimits can be appended to from other gen_*.go files' init().
 var extraLimits []limitConst
 
+// sessionSite is a call `stream_packet.NewSession(stream, <limit>)` whose limit argument is
+// extracted as it is written at the call site (not the constant it is supposed to name).
+type sessionSite struct {
+	lean string // generated definition
+	dir  string // package directory: every non-test file is scanned, the total number of calls must match
+	file string // file expected to hold the call
+	fn   string // enclosing function / method
+}
+
+var sessionSites = []sessionSite{
+	{"floodsubSessionLimit", "pubsub/floodsub", "floodsub.go", "AddPeerStream"},
+	{"solicitInitiateSessionLimit", "link/solicit/controller", "controller.go", "initiateControlStream"},
+	{"solicitHandlerSessionLimit", "link/solicit/controller", "handler-control.go", "HandleMountedStream"},
+}
+
+// pkgConstEval evaluates a constant expression, resolving identifiers to package-level
+// constants of the package in `dir` (any non-test file).
+func pkgConstEval(dir string, e ast.Expr, depth int) (constant.Value, error) {
+	if depth > 8 {
+		return nil, fmt.Errorf("constant expression too deep")
+	}
+	switch x := e.(type) {
+	case *ast.BasicLit:
+		return constant.MakeFromLiteral(x.Value, x.Kind, 0), nil
+	case *ast.ParenExpr:
+		return pkgConstEval(dir, x.X, depth+1)
+	case *ast.Ident:
+		def, err := pkgConstDecl(dir, x.Name)
+		if err != nil {
+			return nil, err
+		}
+		return pkgConstEval(dir, def, depth+1)
+	case *ast.BinaryExpr:
+		a, err := pkgConstEval(dir, x.X, depth+1)
+		if err != nil {
+			return nil, err
+		}
+		b, err := pkgConstEval(dir, x.Y, depth+1)
+		if err != nil {
+			return nil, err
+		}
+		switch x.Op {
+		case token.SHL, token.SHR:
+			s, ok := constant.Uint64Val(b)
+			if !ok || s > 64 {
+				return nil, fmt.Errorf("unsupported shift count")
+			}
+			return constant.Shift(a, x.Op, uint(s)), nil
+		case token.ADD, token.SUB, token.MUL:
+			return constant.BinaryOp(a, x.Op, b), nil
+		case token.QUO:
+			if constant.Sign(b) == 0 {
+				return nil, fmt.Errorf("division by zero")
+			}
+			return constant.BinaryOp(a, token.QUO_ASSIGN, b), nil // integer division
+		}
+		return nil, fmt.Errorf("unsupported operator %s in limit expression", x.Op)
+	case *ast.CallExpr: // conversions like uint32(x)
+		if id, ok := x.Fun.(*ast.Ident); ok && len(x.Args) == 1 {
+			switch id.Name {
+			case "uint32", "uint64", "int", "int64", "uint":
+				return pkgConstEval(dir, x.Args[0], depth+1)
+			}
+		}
+	}
+	return nil, fmt.Errorf("limit argument is not a constant expression the translator understands (%T)", e)
+}
+
+// pkgConstDecl finds the initialiser of the package-level CONSTANT `name` in `dir`.
+func pkgConstDecl(dir, name string) (ast.Expr, error) {
+	files, err := pkgFiles(dir)
+	if err != nil {
+		return nil, err
+	}
+	for _, f := range files {
+		for _, d := range f.Decls {
+			gd, ok := d.(*ast.GenDecl)
+			if !ok || gd.Tok != token.CONST {
+				continue
+			}
+			for _, s := range gd.Specs {
+				vs := s.(*ast.ValueSpec)
+				for i, n := range vs.Names {
+					if n.Name == name && i < len(vs.Values) {
+						return vs.Values[i], nil
+					}
+				}
+			}
+		}
+	}
+	return nil, fmt.Errorf("%s: %s is not a package-level constant with an initialiser", dir, name)
+}
+
+type namedFile struct {
+	name string
+	*ast.File
+}
+
+func pkgFilesNamed(dir string) ([]namedFile, error) {
+	ents, err := os.ReadDir(filepath.Join(repo, dir))
+	if err != nil {
+		return nil, err
+	}
+	var out []namedFile
+	for _, e := range ents {
+		n := e.Name()
+		if e.IsDir() || !strings.HasSuffix(n, ".go") || strings.HasSuffix(n, "_test.go") {
+			continue
+		}
+		f, err := parser.ParseFile(token.NewFileSet(), filepath.Join(repo, dir, n), nil, 0)
+		if err != nil {
+			return nil, err
+		}
+		out = append(out, namedFile{n, f})
+	}
+	sort.Slice(out, func(i, j int) bool { return out[i].name < out[j].name })
+	return out, nil
+}
+
+func pkgFiles(dir string) ([]*ast.File, error) {
+	nf, err := pkgFilesNamed(dir)
+	if err != nil {
+		return nil, err
+	}
+	out := make([]*ast.File, len(nf))
+	for i := range nf {
+		out[i] = nf[i].File
+	}
+	return out, nil
+}
+
+// isNewSession recognises `stream_packet.NewSession(a, b)` (package imported under any name
+// ending in the path stream/packet).
+func isNewSession(f *ast.File, c *ast.CallExpr) bool {
+	sel, ok := c.Fun.(*ast.SelectorExpr)
+	if !ok || sel.Sel.Name != "NewSession" {
+		return false
+	}
+	id, ok := sel.X.(*ast.Ident)
+	if !ok {
+		return false
+	}
+	for _, im := range f.Imports {
+		if strings.Trim(im.Path.Value, `"`) != "github.com/aperturerobotics/bifrost/stream/packet" {
+			continue
+		}
+		name := "stream_packet"
+		if im.Name != nil {
+			name = im.Name.Name
+		}
+		if name == id.Name {
+			return true
+		}
+	}
+	return false
+}
+
+// shadowedIdent returns an identifier used in e that the function declares itself (parameter,
+// receiver, := or var/const statement): such a name is not the package-level constant.
+func shadowedIdent(fd *ast.FuncDecl, e ast.Expr) string {
+	used := map[string]bool{}
+	ast.Inspect(e, func(n ast.Node) bool {
+		if id, ok := n.(*ast.Ident); ok {
+			used[id.Name] = true
+		}
+		return true
+	})
+	res := ""
+	check := func(id *ast.Ident) {
+		if id != nil && used[id.Name] {
+			switch id.Name {
+			case "uint32", "uint64", "int", "int64", "uint":
+			default:
+				res = id.Name
+			}
+		}
+	}
+	fields := func(fl *ast.FieldList) {
+		if fl == nil {
+			return
+		}
+		for _, f := range fl.List {
+			for _, n := range f.Names {
+				check(n)
+			}
+		}
+	}
+	fields(fd.Recv)
+	fields(fd.Type.Params)
+	fields(fd.Type.Results)
+	ast.Inspect(fd.Body, func(n ast.Node) bool {
+		switch x := n.(type) {
+		case *ast.AssignStmt:
+			if x.Tok == token.DEFINE {
+				for _, l := range x.Lhs {
+					if id, ok := l.(*ast.Ident); ok {
+						check(id)
+					}
+				}
+			}
+		case *ast.ValueSpec:
+			for _, id := range x.Names {
+				check(id)
+			}
+		case *ast.RangeStmt:
+			if x.Tok == token.DEFINE {
+				if id, ok := x.Key.(*ast.Ident); ok {
+					check(id)
+				}
+				if id, ok := x.Value.(*ast.Ident); ok {
+					check(id)
+				}
+			}
+		}
+		return true
+	})
+	return res
+}
+
+// sessionLimits extracts the limit argument of every NewSession call of the packages concerned.
+func sessionLimits() (map[string]string, error) {
+	out := map[string]string{}
+	byDir := map[string][]sessionSite{}
+	var dirs []string
+	for _, s := range sessionSites {
+		if _, ok := byDir[s.dir]; !ok {
+			dirs = append(dirs, s.dir)
+		}
+		byDir[s.dir] = append(byDir[s.dir], s)
+	}
+	for _, dir := range dirs {
+		files, err := pkgFilesNamed(dir)
+		if err != nil {
+			return nil, err
+		}
+		found := 0
+		for _, f := range files {
+			for _, d := range f.Decls {
+				fd, ok := d.(*ast.FuncDecl)
+				if !ok || fd.Body == nil {
+					continue
+				}
+				var ferr error
+				ast.Inspect(fd.Body, func(n ast.Node) bool {
+					c, ok := n.(*ast.CallExpr)
+					if !ok || !isNewSession(f.File, c) {
+						return true
+					}
+					found++
+					var site *sessionSite
+					for i := range byDir[dir] {
+						s := &byDir[dir][i]
+						if s.file == f.name && s.fn == fd.Name.Name {
+							site = s
+						}
+					}
+					if site == nil {
+						ferr = fmt.Errorf("%s/%s: unexpected stream_packet.NewSession call in %s (its size limit is not covered by a theorem)", dir, f.name, fd.Name.Name)
+						return false
+					}
+					if _, dup := out[site.lean]; dup {
+						ferr = fmt.Errorf("%s/%s: more than one stream_packet.NewSession call in %s", dir, f.name, fd.Name.Name)
+						return false
+					}
+					if len(c.Args) != 2 {
+						ferr = fmt.Errorf("%s/%s: NewSession call with %d arguments", dir, f.name, len(c.Args))
+						return false
+					}
+					if name := shadowedIdent(fd, c.Args[1]); name != "" {
+						ferr = fmt.Errorf("%s/%s %s: %s in the limit argument is declared locally (not the package constant)", dir, f.name, fd.Name.Name, name)
+						return false
+					}
+					v, err := pkgConstEval(dir, c.Args[1], 0)
+					if err != nil {
+						ferr = fmt.Errorf("%s/%s %s: %v", dir, f.name, fd.Name.Name, err)
+						return false
+					}
+					if v.Kind() != constant.Int || constant.Sign(v) < 0 {
+						ferr = fmt.Errorf("%s/%s %s: session limit is not a non-negative integer constant", dir, f.name, fd.Name.Name)
+						return false
+					}
+					out[site.lean] = v.ExactString()
+					return true
+				})
+				if ferr != nil {
+					return nil, ferr
+				}
+			}
+		}
+		if found != len(byDir[dir]) {
+			return nil, fmt.Errorf("%s: expected %d stream_packet.NewSession calls, found %d", dir, len(byDir[dir]), found)
+		}
+	}
+	return out, nil
+}
+
 func genLimits() (string, error) {
 	cs := []limitConst{
 		{"streamEstablishMaxPacketSize", "transport/controller/controller.go", "streamEstablishMaxPacketSize"},
 		{"connPktSize", "util/rwc/conn.go", "connPktSize"},
+		{"floodsubMaxMessageSize", "pubsub/floodsub/floodsub.go", "maxMessageSize"},
+		{"solicitMaxMessageSize", "link/solicit/controller/controller.go", "maxMessageSize"},
 	}
 	cs = append(cs, extraLimits...)
 	var sb strings.Builder
@@ -26,6 +331,13 @@ func genLimits() (string, error) {
 			return "", err
 		}
 		fmt.Fprintf(&sb, "/-- `%s` in %s -/\ndef %s : Nat := %s\n", x.name, x.rel, x.lean, v)
+	}
+	sl, err := sessionLimits()
+	if err != nil {
+		return "", err
+	}
+	for _, s := range sessionSites {
+		fmt.Fprintf(&sb, "/-- the size limit passed to `stream_packet.NewSession` in `%s` (%s/%s), as written at the call site -/\ndef %s : Nat := %s\n", s.fn, s.dir, s.file, s.lean, sl[s.lean])
 	}
 	sb.WriteString(footer("Limits"))
 	return sb.String(), nil
